@@ -22,7 +22,7 @@ import (
 func init() {
 	Registry["C07"] = &Check{
 		Scenarios: c07Scenarios,
-		Rule: "A Server with ReadTimeout 500 ms and no WriteTimeout whose handler answers through a transport that stalls 900 ms mid-write, an application goroutine writing behind it (384 B and 5 KiB messages, virtual clock). schedules: W in {2,3} writer threads, 1-2 messages each with sizes from {200 B, 2 KiB, 5 KiB} (below/above the 1 KiB pooled serialisation buffer and the 4 KiB bufio buffer) written to one diam.Conn through Message.WriteTo, Conn.Write with caller-serialised bytes and Message.WriteToStreamWithRetry (rotating per writer and message) over an in-memory transport whose Write stalls between two pieces; every schedule up to the preemption bound (W=2: bound 2 quick / unbounded thorough; W=3: bound 2 / 3), happens-before state caching. faults: every sequence of write outcomes (bytes accepted k in {0,1,n/2,n-1,n} x {temporary - alternately a plain one and one that is also a timeout -, permanent, nil}) of length <= retries+1 for retries 0..3, and of length <=3 for the retry budgets 2^31, 2^32, 2^63, 2^64-2 and 2^64-1 (what a caller passes to mean 'keep retrying'), against writeRetry (io.Writer) and writeStreamRetry (MultistreamWriter), and through a diam.Conn over a faulting transport with two messages of sizes {200+2048, 5000+200, 200+5000, 4116+6000} (below and above the connection's 4 KiB write buffer): the wire must hold every message whose write returned nil, whole, once and in order, a failed write contributes a prefix of its message, and nothing may follow a torn message. write-timeout: two writers on a connection served with WriteTimeout 800 ms over a transport that stalls the first write 600 ms and the second 400 ms (virtual clock, preemption bound 3): both succeed, both messages whole. stale-connection: a write to a connection that has ended, after a new connection was created, never reaches the new connection's transport. close-during-write: one writer (200 / 4096 / 5120 bytes) whose transport write stalls half way and an application goroutine closing the connection at every instant (preemption bound 3): the transport never receives more than a prefix of the message. sizes: every message size 32..8300 (multiples of four) through WriteTo / Conn.Write / WriteToWithRetry on a fault-free connection: the transport holds exactly the message as soon as the write has returned.",
+		Rule: "A multistream association serving requests on streams 3 and 5 while an application goroutine sends a stream-less request with retries through a transport that takes 10 octets and reports a temporary error (per stream, the octets written are whole messages). A Server with ReadTimeout 500 ms and no WriteTimeout whose handler answers through a transport that stalls 900 ms mid-write, an application goroutine writing behind it (384 B and 5 KiB messages, virtual clock). schedules: W in {2,3} writer threads, 1-2 messages each with sizes from {200 B, 2 KiB, 5 KiB} (below/above the 1 KiB pooled serialisation buffer and the 4 KiB bufio buffer) written to one diam.Conn through Message.WriteTo, Conn.Write with caller-serialised bytes and Message.WriteToStreamWithRetry (rotating per writer and message) over an in-memory transport whose Write stalls between two pieces; every schedule up to the preemption bound (W=2: bound 2 quick / unbounded thorough; W=3: bound 2 / 3), happens-before state caching. faults: every sequence of write outcomes (bytes accepted k in {0,1,n/2,n-1,n} x {temporary - alternately a plain one and one that is also a timeout -, permanent, nil}) of length <= retries+1 for retries 0..3, and of length <=3 for the retry budgets 2^31, 2^32, 2^63, 2^64-2 and 2^64-1 (what a caller passes to mean 'keep retrying'), against writeRetry (io.Writer) and writeStreamRetry (MultistreamWriter), and through a diam.Conn over a faulting transport with two messages of sizes {200+2048, 5000+200, 200+5000, 4116+6000} (below and above the connection's 4 KiB write buffer): the wire must hold every message whose write returned nil, whole, once and in order, a failed write contributes a prefix of its message, and nothing may follow a torn message. write-timeout: two writers on a connection served with WriteTimeout 800 ms over a transport that stalls the first write 600 ms and the second 400 ms (virtual clock, preemption bound 3): both succeed, both messages whole. stale-connection: a write to a connection that has ended, after a new connection was created, never reaches the new connection's transport. close-during-write: one writer (200 / 4096 / 5120 bytes) whose transport write stalls half way and an application goroutine closing the connection at every instant (preemption bound 3): the transport never receives more than a prefix of the message. sizes: every message size 32..8300 (multiples of four) through WriteTo / Conn.Write / WriteToWithRetry on a fault-free connection: the transport holds exactly the message as soon as the write has returned.",
 		Assume: []string{"data-race freedom between visible operations (audited separately with -race)", "the source rewriter and shims preserve Go semantics (shim unit tests)"},
 		QuickBudget: 100, ThoroughBudget: 1500,
 	}
@@ -79,6 +79,7 @@ func c07Scenarios(tier string) []*Scenario {
 	for _, size := range []int{384, 5120} {
 		out = append(out, c07ReadTimeoutStall(size, 3))
 	}
+	out = append(out, c07StreamRetry(2))
 	for _, size := range []int{200, 4096, 5120} {
 		out = append(out, c07CloseDuringWrite(size, 3))
 	}
@@ -720,6 +721,100 @@ func c07ReadTimeoutStall(size, bound int) *Scenario {
 	}
 	return &Scenario{Name: fmt.Sprintf("read-timeout/answer-written-through-a-stalled-transport/%d", size), Body: body, Check: check, Bound: bound, Horizon: 5 * time.Second,
 		Outcome: func(s *vs.Sched) string { return fmt.Sprint(c07wt.errs, len(c07wt.conn.Out)) }}
+}
+
+// c07StreamRetry: a multistream association serves requests arriving on streams 3 and 5 while an
+// application goroutine sends a request of its own (built with NewRequest: no stream of its own)
+// with a retry budget; the transport takes 10 octets of it and reports a temporary error. The rest
+// follows the head: on every stream the octets written, in order, are whole messages.
+var c07sr struct {
+	be   *vnet.SCTP
+	err  error
+	n    int64
+	done bool
+}
+
+func c07StreamRetry(bound int) *Scenario {
+	body := func() {
+		st := &c07sr
+		st.err, st.n, st.done = nil, 0, false
+		be := vnet.NewSCTP("M")
+		st.be = be
+		hit := false
+		be.WHook = func(b []byte, stream uint16) (int, bool) {
+			if !hit && len(b) >= 20 && b[12] == 0 && b[13] == 0 && b[14] == 0xAB && b[15] == 0xCD {
+				hit = true
+				return 10, true
+			}
+			return 0, false
+		}
+		mux := diam.NewServeMux()
+		mux.HandleFunc("ALL", func(c diam.Conn, m *diam.Message) {
+			vs.Yield("handler-work")
+			m.Answer(2001).WriteTo(c)
+		})
+		dc, err := diam.NewConn(diam.NewSCTPConnBackend(be), "peer", mux, dict.Default)
+		if err != nil {
+			panic(err)
+		}
+		vs.GoNamed("app-writer", false, func() {
+			m := diam.NewRequest(258, 0, dict.Default)
+			m.Header.HopByHopID = 0xABCD
+			m.NewAVP(avp.OriginHost, avp.Mbit, 0, datatype.DiameterIdentity("app.example"))
+			st.n, st.err = m.WriteToWithRetry(dc, 2)
+			st.done = true
+		})
+		vs.GoNamed("peer", true, func() {
+			for i, stream := range []uint16{3, 5} {
+				be.Deliver(stream, refcodec.EncodeMessage(refcodec.Header{Version: 1, Flags: 0x80, Code: 258, HbH: uint32(i + 1), E2E: 9}, []refcodec.Node{ident(264, "c")}))
+				vs.Yield("env")
+			}
+		})
+	}
+	check := func(s *vs.Sched) string {
+		st := &c07sr
+		var v []string
+		if !st.done {
+			v = append(v, "the application's WriteToWithRetry never returned")
+		} else if st.err != nil {
+			v = append(v, fmt.Sprintf("the application's WriteToWithRetry(2 retries) reported %v after one temporary error", st.err))
+		}
+		per := map[uint16][]byte{}
+		var order []uint16
+		for _, w := range st.be.Writes {
+			if _, ok := per[w.Stream]; !ok {
+				order = append(order, w.Stream)
+			}
+			per[w.Stream] = append(per[w.Stream], w.Data...)
+		}
+		seen := 0
+		for _, stream := range order {
+			msgs, rest := refcodec.SplitStream(per[stream])
+			if rest != "eof" {
+				v = append(v, fmt.Sprintf("the octets written to stream %d (%d in all) are not a sequence of whole messages (%s): a message was continued on another stream after a partial write", stream, len(per[stream]), rest))
+			}
+			for _, m := range msgs {
+				if h, err := refcodec.DecodeHeader(m); err == nil && h.HbH == 0xABCD {
+					seen++
+				}
+			}
+		}
+		if st.done && st.err == nil && seen != 1 {
+			v = append(v, fmt.Sprintf("the application's message reached the transport whole %d times, expected once", seen))
+		}
+		for _, p := range s.Panics() {
+			v = append(v, "panic: "+p)
+		}
+		return strings.Join(v, " | ")
+	}
+	return &Scenario{Name: "multistream/retry-after-a-partial-write-while-requests-are-served", Body: body, Check: check, Bound: bound,
+		Outcome: func(s *vs.Sched) string {
+			var x []string
+			for _, w := range c07sr.be.Writes {
+				x = append(x, fmt.Sprintf("%d:%d", w.Stream, len(w.Data)))
+			}
+			return strings.Join(x, ",")
+		}}
 }
 
 // c07StaleConn: a connection whose peer has gone away is followed by a new connection; a goroutine
